@@ -9,7 +9,7 @@ order.  Occurrence analysis by the REPLACE rule (name overlaps are explored by r
 import string
 import z3
 from pyvc.spec import Target, Lemma, State, NULLLOG
-from pyvc.values import Obj, Extern, FlexDict, unflex
+from pyvc.values import Obj, Extern, FlexDict, unflex, SymBytes, Uninterp
 from pyvc.core import And, Or, Not, Implies, Iff, If, Eq, In, Sym, compare, OutsideSubset
 from pyvc import sstr
 from pyvc.sstr import SStr, Lit, Num, Atom
@@ -125,6 +125,67 @@ class ResolveArguments(Target):
         return [] if sv == nv else ["arguments: symbolic %r vs native %r" % (sv, nv)]
 
 
+class ResolveOutputContents(Target):
+    """'... or the contents of the referenced file for output references': DataReference.resolve on an :output reference
+    to a file returns the file's bytes decoded as UTF-8 (undecodable bytes replaced) without trailing newlines -- a
+    function of the BYTES, with no newline translation or other text-mode processing."""
+    prop = 'C10'
+    name = 'DataReference.resolve[output]'
+    file = G
+    qualname = 'DataReference.resolve'
+    abstracted = True
+    compare_return = False
+    trusted = ["open(path, 'rb').read() returns the file's bytes; a text-mode read returns universal_newlines(decode(bytes)) "
+               "-- modelled as a DIFFERENT (uninterpreted) function of the bytes", "glob.glob / os.path.exists / isfile",
+               "bytes.decode('utf-8', 'replace') and str.rstrip are functions (uninterpreted in the proof, real in replays)"]
+    assumptions = ["a direct :output reference to one existing file (no component node); contents arbitrary"]
+
+    def setup(self, c):
+        content = c.str('file_contents')
+        this = Obj('dataref', method='output', fileRef='out.txt', producerName='data', stringRepresentation='data/out.txt:output',
+                   absoluteReference='data/out.txt:output',
+                   producerIdentifier=Obj('pid', identifier='data', stageIndex=None, componentName='data'),
+                   _producerIdentifier=Obj('pid', identifier='data', stageIndex=None, componentName='data'))
+        graph = Obj('wg', _placeholders={}, graph=Obj('nx', nodes={}),
+                    rootStorage=Obj('storage', resolvePath=Extern('resolvePath', lambda c, p: '/inst/' + p)))
+        return State(args=[this, graph], content=content, this=this)
+
+    def real_function(self):
+        return graph_mod.DataReference.resolve
+
+    def externs(self, c, st):
+        content = st.content
+
+        def open_(c, path, mode='r', *a, **k):
+            if 'b' in mode:
+                data = SymBytes(content, 'utf-8') if c.mode == 'sym' else content.encode('utf-8', 'surrogateescape')
+            else:
+                # text mode: decoding AND universal-newline translation
+                data = TEXT_MODE.apply(content) if c.mode == 'sym' else content.replace('\r\n', '\n').replace('\r', '\n')
+            f = Obj('rfile', read=Extern('file.read', lambda c: data))
+            f.__enter__ = Extern('file.__enter__', lambda c: f)
+            f.__exit__ = Extern('file.__exit__', lambda c, *e: None)
+            return f
+        return {'open': Extern('open', open_), 'glob.glob': Extern('glob.glob', lambda c, p: [p]),
+                'os.path.exists': Extern('os.path.exists', lambda c, p: True),
+                'os.path.isfile': Extern('os.path.isfile', lambda c, p: True),
+                'traceback.format_exc': Extern('format_exc', lambda c: 'tb')}
+
+    def ensures(self, c, st, out):
+        if out.kind == 'raise':
+            return [('no-exception', False)]
+        if c.mode == 'sym':
+            from pyvc.models import str_function
+            want = str_function('rstrip', '\n').apply(st.content)      # decode(encode(s)) is s
+            return [('output-reference-resolves-to-the-decoded-bytes-of-the-file', Eq(out.value, want))]
+        return [('output-reference-resolves-to-the-decoded-bytes-of-the-file', out.value == st.content.rstrip('\n'))]
+
+    def cross_compare(self, *a):
+        return []
+
+
+TEXT_MODE = Uninterp('text_mode_read', doc="open(path, 'r').read(): decoding plus universal-newline translation")
+
 class ResolveArgumentsUnresolved(ResolveArguments):
     """a reference that cannot be resolved while errors are ignored (validation of a package before it ran): the
     contents of a missing :output are the empty string, a missing path is left as written -- never the text 'None'"""
@@ -166,5 +227,5 @@ class ResolveArgumentsUnresolved(ResolveArguments):
         return [('an-unresolved-reference-never-becomes-the-text-None', bool(same(st.env['arguments'], st.want, c)))]
 
 
-TARGETS = [ResolveArguments(), ResolveArgumentsUnresolved()]
+TARGETS = [ResolveArguments(), ResolveArgumentsUnresolved(), ResolveOutputContents()]
 LEMMAS = []
